@@ -385,6 +385,20 @@ func (y *c19Sys) Check(s *c19State) *engine.Violation {
 			if v := y.judge("meta", m.raw, s.br[b].Challenger, before, s.channels(ctx), res.OK(), fmt.Sprintf("probe UpdateMetadata(b%d,%s)", b+1, m.name)); v != nil {
 				return tagged(v, "probe", "meta:"+m.name)
 			}
+			if !res.OK() {
+				continue
+			}
+			// two-step probe: with this metadata stored, hand the bridge to the other challenger
+			mid := s.channels(ctx)
+			other := "chX"
+			if s.br[b].Challenger == "chX" {
+				other = "chY"
+			}
+			y.probes.Add(1)
+			res2 := s.w.Deliver(ctx, ophosttypes.NewMsgUpdateChallenger(s.w.Authority, uint64(b+1), world.Addr(other).String()))
+			if v := y.judge("chal", m.raw, other, mid, s.channels(ctx), res2.OK(), fmt.Sprintf("probe UpdateMetadata(b%d,%s) then UpdateChallenger(b%d,%s)", b+1, m.name, b+1, other)); v != nil {
+				return tagged(v, "probe", "meta+chal:"+m.name)
+			}
 		}
 	}
 	return nil
